@@ -744,6 +744,12 @@ class Engine(object):
                 r2, m2 = self._check(z3.And(z3.Not(t), *tame))
                 if r2 == 'sat':
                     m = m2
+            try:
+                m3 = realistic_model(self, z3.Not(t))
+            except z3.Z3Exception:
+                m3 = None
+            if m3 is not None:
+                m = m3
             self.findings.append(Finding(
                 label, 'obligation', detail or str(t)[:300],
                 list(self.trace), self.model_dict(m)))
@@ -925,3 +931,160 @@ def _approx(v):
     except Exception:
         pass
     return None
+
+
+# ---------------------------------------------------------------------------
+# realistic models: uninterpreted exp/log/logsumexp/product terms pinned to
+# the true function values at the model's inputs, so that a concrete run with
+# real numpy follows the same path
+# ---------------------------------------------------------------------------
+
+_FN_NAMES = ('EXP', 'LOG', 'SQRT', 'MUL', 'DIV', 'POW')
+
+
+def _is_fn_app(t):
+    if not (z3.is_app(t) and t.num_args() > 0 and
+            t.decl().kind() == z3.Z3_OP_UNINTERPRETED):
+        return False
+    n = t.decl().name()
+    return n in _FN_NAMES or n.startswith('LSE')
+
+
+def _collect(terms):
+    """function applications in terms (inner first) and free constants"""
+    seen, apps, consts = set(), [], []
+    stack = [(t, False) for t in terms]
+    while stack:
+        t, done = stack.pop()
+        i = t.get_id()
+        if done:
+            if _is_fn_app(t):
+                apps.append(t)
+            continue
+        if i in seen:
+            continue
+        seen.add(i)
+        if z3.is_const(t) and t.decl().kind() == z3.Z3_OP_UNINTERPRETED:
+            consts.append(t)
+        stack.append((t, True))
+        for c in t.children():
+            stack.append((c, False))
+    return apps, consts
+
+
+def _true_value(name, vals):
+    import math
+    try:
+        if name == 'EXP':
+            return math.exp(vals[0])
+        if name == 'LOG':
+            return math.log(vals[0]) if vals[0] > 0 else None
+        if name == 'SQRT':
+            return math.sqrt(vals[0]) if vals[0] >= 0 else None
+        if name == 'MUL':
+            return vals[0] * vals[1]
+        if name == 'DIV':
+            return vals[0] / vals[1] if vals[1] != 0 else None
+        if name == 'POW':
+            return vals[0] ** vals[1] if vals[0] >= 0 else None
+        if name.startswith('LSE'):
+            mx = max(vals)
+            return mx + math.log(sum(math.exp(v - mx) for v in vals))
+    except (OverflowError, ValueError):
+        return None
+    return None
+
+
+def _num(v):
+    f = _approx(v)
+    return None if f is None else float(f)
+
+
+def realistic_model(eng, extra=None, rounds=6):
+    """a model of pc (and extra) in which every exp/log/logsumexp/product
+    application has its true value at the model's own argument values (so a
+    concrete run with real numpy follows the same path); None if the
+    refinement loop does not converge."""
+    terms = list(eng.pc) + ([extra] if extra is not None else [])
+    apps, consts = _collect(terms)
+    reals = [c for c in consts if z3.is_real(c)]
+    s = eng.solver
+    s.push()
+    try:
+        if extra is not None:
+            s.add(extra)
+        if not apps:
+            tame = [z3.And(c >= -30, c <= 30) for c in reals]
+            s.push()
+            if tame:
+                s.add(*tame)
+            r = s.check()
+            m = s.model() if r == z3.sat else None
+            s.pop()
+            if m is None and s.check() == z3.sat:
+                m = s.model()
+            return m
+        tame = [z3.And(c >= -30, c <= 30) for c in reals]
+        lemmas = []
+        use_tame = bool(tame)
+        for _ in range(rounds):
+            s.push()
+            s.add(*lemmas) if lemmas else None
+            if use_tame:
+                s.add(*tame)
+            r = s.check()
+            if r != z3.sat and use_tame:
+                s.pop()
+                use_tame = False
+                continue
+            if r != z3.sat:
+                s.pop()
+                return None
+            m = s.model()
+            s.pop()
+            strong, mism = [], 0
+            ok = True
+            for a in apps:
+                vals = [_num(m.eval(x, model_completion=True))
+                        for x in a.children()]
+                if any(v is None for v in vals):
+                    ok = False
+                    break
+                tv = _true_value(a.decl().name(), vals)
+                if tv is None or tv != tv or abs(tv) > 1e100:
+                    ok = False
+                    break
+                cur = _num(m.eval(a, model_completion=True))
+                argeq = [x == m.eval(x, model_completion=True)
+                         for x in a.children()]
+                pin = a == _float_term(tv)
+                strong.extend(argeq)
+                strong.append(pin)
+                if cur is None or abs(cur - tv) > 1e-9 * max(1.0, abs(tv)):
+                    mism += 1
+                    lemmas.append(z3.Implies(z3.And(*argeq), pin))
+            if not ok:
+                # unusable valuation (log of a non-positive number, ...):
+                # exclude it and retry
+                if reals:
+                    lemmas.append(z3.Or(*[c != m.eval(c, model_completion=True)
+                                          for c in reals[:6]]))
+                    continue
+                return None
+            if mism == 0:
+                return m
+            s.push()
+            s.add(*lemmas)
+            s.add(*strong)
+            r2 = s.check()
+            m2 = s.model() if r2 == z3.sat else None
+            s.pop()
+            if m2 is not None:
+                return m2
+        return None
+    finally:
+        s.pop()
+
+
+def _float_term(v):
+    return z3.RealVal(str(Fraction(v).limit_denominator(10 ** 12)))
